@@ -1,4 +1,4 @@
-(* NEEDS: SelfCal/AutoReplay.vo SelfCal/WeightModel.vo SelfCal/TrlQI.vo SelfCal/DispatchModel.vo *)
+(* NEEDS: SelfCal/AutoReplay.vo SelfCal/WeightModel.vo SelfCal/TrlQI.vo SelfCal/DispatchModel.vo SelfCal/TrlTermsQI.vo SelfCal/GuardModel.vo *)
 (* Extraction of the executable self-calibration models (AutoLoop replay kernel, weight-vector
    indexing).  Only ExtrOcamlBasic's directives are in effect. *)
 Require Extraction.
@@ -6,6 +6,13 @@ Require Import ExtrOcamlBasic.
 Require Import List ZArith QArith Qcanon.
 Require Import LV.Base.CField LV.Base.QcI LV.SelfCal.AutoLoop LV.SelfCal.AutoReplay LV.SelfCal.WeightModel.
 Require Import LV.SelfCal.TrlModel LV.SelfCal.TrlQI LV.SelfCal.DispatchModel.
+Require Import LV.SelfCal.TrlTermsModel LV.SelfCal.TrlTermsQI LV.SelfCal.GuardModel.
+
+(* the checked-memory walks over integer markers *)
+Definition n_update_s := update_s_matrices nat.
+Definition n_save_v := save_v_matrices nat.
+Definition n_restore_v := restore_v_matrices nat.
+Definition n_init_vvec := init_vvec nat.
 
 (* the weight model over equation numbers: the "weight" of equation number m is m + 1, the
    calloc zero is 0; the correspondence maps the numbers back to measurements *)
@@ -21,4 +28,6 @@ Extraction "models_selfcal.ml"
   n_calc_weights n_simple_index n_auto_index
   q_trl_solve M2 qi_nrm qi_sub
   dof
-  dispatch.
+  dispatch
+  q_trl_rows_t q_trl_rows_u
+  n_update_s n_save_v n_restore_v n_init_vvec.
